@@ -191,9 +191,10 @@ func leaves(v interface{}, into map[string]bool) {
 	}
 }
 
-var c09FaultKinds = []string{"transport", "errors", "short", "long", "nulldata", "nonode", "node_not_map", "wrong_shape"}
+var c09FaultKinds = []string{"transport", "errors", "short", "long", "nulldata", "nonode", "node_not_map", "wrong_shape",
+	"deep_obj_to_empty_list", "deep_obj_to_list", "deep_obj_to_scalar", "deep_list_to_obj", "deep_list_to_scalar"}
 
-func isFailureSignal(k string) bool { return k != "wrong_shape" }
+func isFailureSignal(k string) bool { return k != "wrong_shape" && !strings.HasPrefix(k, "deep_") }
 
 func driveC09(seed int64, tier, out, replay string) {
 	rng := hx.NewRand(seed)
@@ -292,6 +293,9 @@ func driveC09(seed int64, tier, out, replay string) {
 				fc.Op = &op
 				fc.FaultURL = st.url
 				fc.Fault = &fake.Fault{Kind: kind, Call: st.call, Pos: st.pos}
+				if strings.HasPrefix(kind, "deep_") {
+					fc.Fault.Where = rng.Intn(6)
+				}
 				hx.Current(out, idx, fc)
 				for _, s := range r.Services {
 					s.Faults = nil
